@@ -47,6 +47,22 @@ func (RawStr) GetEncodedSize(b []byte) int        { return len(b) }
 // TypeEncoder and must come back with the same dynamic type.
 type defOff int64
 
+// CopyBytes is a user-defined encoder whose Decode hands out a fresh, mutable
+// copy (a 1-byte length prefix followed by the bytes): whatever the caller
+// does to a returned value afterwards must not reach the trie or later answers.
+type CopyBytes struct{}
+
+func (CopyBytes) Encode(d interface{}) []byte {
+	b := d.([]byte)
+	return append([]byte{byte(len(b))}, b...)
+}
+func (CopyBytes) Decode(b []byte) (int, interface{}) {
+	n := int(b[0])
+	return 1 + n, append([]byte{}, b[1:1+n]...)
+}
+func (CopyBytes) GetSize(d interface{}) int   { return 1 + len(d.([]byte)) }
+func (CopyBytes) GetEncodedSize(b []byte) int { return 1 + int(b[0]) }
+
 var intKinds = []string{"i8", "i16", "i32", "i64", "u16", "u32", "u64", "int"}
 
 func (v *ValSpec) IsNone() bool { return v == nil || v.Kind == "none" }
@@ -55,7 +71,7 @@ func (v *ValSpec) Len() int {
 	switch v.Kind {
 	case "none":
 		return 0
-	case "str16", "bytesN", "rawstr":
+	case "str16", "bytesN", "rawstr", "cpbytes":
 		return len(v.Strs)
 	}
 	return len(v.Ints)
@@ -87,6 +103,8 @@ func (v *ValSpec) Encoder() encode.Encoder {
 		return encode.String16{}
 	case "rawstr":
 		return RawStr{}
+	case "cpbytes":
+		return CopyBytes{}
 	case "bytesN":
 		return encode.Bytes{Size: v.N}
 	case "defI64":
@@ -175,7 +193,7 @@ func (v *ValSpec) Slice() interface{} {
 		s := make([]string, n)
 		copy(s, v.Strs)
 		return s
-	case "bytesN":
+	case "bytesN", "cpbytes":
 		s := make([][]byte, n)
 		for i := range s {
 			s[i] = []byte(v.Strs[i])
@@ -195,7 +213,7 @@ func (v *ValSpec) Slice() interface{} {
 // (what the historical layouts require).
 func (v *ValSpec) FixedSize() bool {
 	switch v.Kind {
-	case "none", "str16", "rawstr":
+	case "none", "str16", "rawstr", "cpbytes":
 		return false
 	}
 	return true
@@ -238,7 +256,7 @@ func (v *ValSpec) At(i int) interface{} {
 		return int(v.Ints[i])
 	case "str16", "rawstr":
 		return v.Strs[i]
-	case "bytesN":
+	case "bytesN", "cpbytes":
 		return []byte(v.Strs[i])
 	case "structLE", "structBE":
 		return structOf(v.Ints[i])
@@ -272,6 +290,8 @@ func (v *ValSpec) RefEnc(i int) []byte {
 		return append([]byte{byte(len(s) >> 8), byte(len(s))}, s...)
 	case "bytesN", "rawstr":
 		return []byte(v.Strs[i])
+	case "cpbytes":
+		return append([]byte{byte(len(v.Strs[i]))}, v.Strs[i]...)
 	case "structLE", "structBE":
 		return refStruct(structOf(v.Ints[i]), v.Kind == "structBE")
 	}
@@ -324,7 +344,7 @@ func (v *ValSpec) Describe(max int) interface{} {
 	switch v.Kind {
 	case "none":
 		return nil
-	case "str16", "bytesN", "rawstr":
+	case "str16", "bytesN", "rawstr", "cpbytes":
 		out := []string{}
 		for i, s := range v.Strs {
 			if i >= max {
@@ -441,7 +461,7 @@ func genVals(r *RNG, kind string, n int, style int) *ValSpec {
 	}
 	ids := runPattern(r, n, style)
 	switch kind {
-	case "str16", "rawstr":
+	case "str16", "rawstr", "cpbytes":
 		v.Strs = make([]string, n)
 		var cur string
 		for i := 0; i < n; i++ {
@@ -477,6 +497,13 @@ func genVals(r *RNG, kind string, n int, style int) *ValSpec {
 				}
 			}
 			v.Strs[i] = cur
+		}
+		if kind == "cpbytes" {
+			for i, x := range v.Strs {
+				if len(x) > 255 {
+					v.Strs[i] = x[:255]
+				}
+			}
 		}
 		if kind == "rawstr" {
 			// all-empty encodings degenerate to the no-values representation
@@ -555,7 +582,7 @@ func sameEnc(kind string, a, b int64) bool {
 	return a == b
 }
 
-var allValKinds = []string{"none", "i8", "i16", "i32", "i64", "u16", "u32", "u64", "int", "str16", "bytesN", "structLE", "structBE", "rawstr", "defI64"}
+var allValKinds = []string{"none", "i8", "i16", "i32", "i64", "u16", "u32", "u64", "int", "str16", "bytesN", "structLE", "structBE", "rawstr", "defI64", "cpbytes"}
 
 // pickKind chooses a value kind; n is the number of keys (i8 cannot give n
 // distinct values beyond 256 but duplicates are legitimate input anyway).
